@@ -24,5 +24,32 @@
 /* largest block number / offset for which block*bs + offset + size stays far inside 63 bits */
 #define UNDO_MAX_BLOCK (1ULL << 44)
 #define UNDO_MAX_OFFSET (1LL << 60)
+/* no filesystem byte the preconditions above admit lies beyond this one */
+#define UNDO_MAX_BYTE (1ULL << 61)
+
+/*
+ * Undo blocks (C12 mechanism 2, "a bitmap of already-saved blocks").  The undo manager cuts the filesystem into
+ * undo blocks of tdb bytes (tdb = undo_header.block_size); bit t of written_block_map says "the old content of
+ * undo block t is in the undo file".  Where the numbering comes from (independent of undo_write_tdb):
+ * an undo key (fsblk, size) describes the FILESYSTEM bytes [fsblk*fs_block_size, +size) — that is how e2undo
+ * replays it (io_channel_write_blk64(channel, fsblk, -size) on a channel of block size fs_block_size that has
+ * been given the filesystem offset) — and try_reopen_undo_file() turns a key back into the bits
+ * fsblk*fs_block_size/tdb ...; so undo block t stands for the filesystem bytes
+ *      R(t) = [(t - ORG)*tdb, (t - ORG + 1)*tdb)
+ * with numbering origin ORG = 0 at the time an undo file is re-opened (the filesystem offset is still 0 then: the
+ * "offset=" option reaches the channel only after open).  Within one channel lifetime the origin is private to the
+ * manager; the pinned tree numbers the blocks from the device start rounded down to an undo block, i.e.
+ * ORG = offset/tdb (undo_write_tdb reads block t at t*tdb + offset%tdb - offset), which agrees with the re-open
+ * numbering for offset < tdb.  findings/C12_tdb_unaligned_offset/proposed-fix.patch changes the code to ORG = 0;
+ * units built for the patched tree pass -DUNDO_ORIGIN_FSREL.
+ */
+#ifdef UNDO_ORIGIN_FSREL
+#define UNDO_ORIGIN(off, tdb) 0ULL
+#else
+#define UNDO_ORIGIN(off, tdb) ((unsigned long long)(off) / (unsigned long long)(tdb))
+#endif
+/* undo block of a filesystem byte, first filesystem byte of an undo block */
+#define UNDO_TBLK(fsbyte, off, tdb) ((unsigned long long)(fsbyte) / (unsigned long long)(tdb) + UNDO_ORIGIN(off, tdb))
+#define UNDO_TSTART(t, off, tdb) (((unsigned long long)(t) - UNDO_ORIGIN(off, tdb)) * (unsigned long long)(tdb))
 
 #endif
